@@ -620,9 +620,16 @@ def _arg_extreme(ex, args, node, st, which):
         kp = fresh('arg%s_pos' % which, IntS)
         p = z3.Const('am_p!%d' % ex.qcount(), IntS)
         st.assume(z3.And(lo <= kp, kp < hi))
-        st.assume(z3.ForAll([p], z3.Implies(z3.And(lo <= p, p < hi), z3.Not(zbool(less(at(p), at(kp))))), patterns=[at(p)]))
+        def forall_at(body):
+            # the element term is the natural trigger; on changed code it may not mention the position (a constant row /
+            # column index): then the fact is stated without a trigger instead of crashing the checker
+            try:
+                return z3.ForAll([p], body, patterns=[at(p)])
+            except z3.Z3Exception:
+                return z3.ForAll([p], body)
+        st.assume(forall_at(z3.Implies(z3.And(lo <= p, p < hi), z3.Not(zbool(less(at(p), at(kp)))))))
         earlier = z3.And(kp < p, p < hi) if step == -1 else z3.And(lo <= p, p < kp)
-        st.assume(z3.ForAll([p], z3.Implies(earlier, zbool(less(at(kp), at(p)))), patterns=[at(p)]))
+        st.assume(forall_at(z3.Implies(earlier, zbool(less(at(kp), at(p))))))
         return (kp - start) * step
     k = fresh('arg%s' % which, IntS)
     j = z3.Const('am_j!%d' % ex.qcount(), IntS)
